@@ -88,6 +88,10 @@ func sourceRepo(env *sbx.Env, srv *fakelfs.Server, r *rand.Rand, name string, n 
 
 // pointerClone builds a repository whose working tree and history hold pointers only (no local objects).
 func pointerClone(env *sbx.Env, srv *fakelfs.Server, r *rand.Rand, n int, parts bool) string {
+	longParts := false
+	if n < 0 {
+		n, longParts = -n, true
+	}
 	repo := env.InitRepo("repo")
 	writeFile(filepath.Join(repo, ".gitattributes"), []byte(attrs))
 	for i := 0; i < n; i++ {
@@ -96,6 +100,24 @@ func pointerClone(env *sbx.Env, srv *fakelfs.Server, r *rand.Rand, n int, parts 
 		writeFile(filepath.Join(repo, fmt.Sprintf("d%d/f%d.bin", i%2, i)), []byte(ptrspec.Canonical(ptrspec.Pointer{Oid: oid, Size: int64(len(b))})))
 		if parts && i%2 == 0 {
 			writeFile(filepath.Join(repo, ".git", "lfs", "incomplete", oid+".part"), b[:len(b)/3])
+		}
+		if longParts {
+			// resume files that already hold (nearly) everything or more: cut off one byte before the end, complete,
+			// complete plus trailing garbage, full length of other bytes, and an ordinary third
+			var part []byte
+			switch i % 5 {
+			case 0:
+				part = b[:len(b)-1]
+			case 1:
+				part = b
+			case 2:
+				part = append(append([]byte{}, b...), randBytes(r, 100)...)
+			case 3:
+				part = randBytes(r, len(b))
+			default:
+				part = b[:len(b)/3]
+			}
+			writeFile(filepath.Join(repo, ".git", "lfs", "incomplete", oid+".part"), part)
 		}
 	}
 	env.PlainGit(repo, "add", "-A")
@@ -159,6 +181,10 @@ func scenarios(thorough bool) []scenario {
 		{name: "lfs-fetch-with-parts", prog: "git-lfs", args: []string{"fetch", "origin", "main"}, crashCmd: "fetch", direct: true,
 			build: func(env *sbx.Env, srv *fakelfs.Server, r *rand.Rand) string {
 				return pointerClone(env, srv, r, 4, true)
+			}},
+		{name: "lfs-fetch-with-full-length-parts", prog: "git-lfs", args: []string{"fetch", "origin", "main"}, crashCmd: "fetch", direct: true,
+			build: func(env *sbx.Env, srv *fakelfs.Server, r *rand.Rand) string {
+				return pointerClone(env, srv, r, -5, false)
 			}},
 		{name: "lfs-fetch-with-parts-server-ignores-range", prog: "git-lfs", args: []string{"fetch", "origin", "main"}, crashCmd: "fetch", direct: true,
 			build: func(env *sbx.Env, srv *fakelfs.Server, r *rand.Rand) string {
@@ -435,7 +461,7 @@ type job struct {
 func main() {
 	run := evid.New("C09", "fault_enumeration")
 	defer sbx.RemoveBase()
-	run.Rule = "per scenario {git add via filter-process, one-shot clean, fetch of N objects with resume parts (server honouring / ignoring Range), pull, checkout with smudge download, migrate import, fsck repair of corrupt objects, prune, pull in a clone with a reference store, fetch with the reference store on another filesystem, fetch through a standalone custom transfer agent with its scratch directory on the same / another filesystem}: a discovery run logs every reached verif crash point (temp-file creation, each copy burst, rename into place, link/copy from a reference store, move to bad/, unlink); one SIGKILL run per (point, scenario-wide ordinal); plus an strace sweep injecting SIGKILL at the N-th write/rename/link/unlink/openat of the git-lfs process; plus a write-discipline trace check (no open-for-write below lfs/objects) on uninterrupted runs. Oracle after each kill: every file under lfs/objects hashes to its name, leftovers only in lfs/tmp|incomplete|bad|cache|logs (and no entry of the Git directory that is not Git's own), re-running the command exits as the uninterrupted run and ends with the same object (and bad/) set as the golden run. Class = (scenario, kill kind, crash point)."
+	run.Rule = "per scenario {git add via filter-process, one-shot clean, fetch of N objects with resume parts (a third of the object; one byte short, complete, over-long or of other bytes; server honouring / ignoring Range), pull, checkout with smudge download, migrate import, fsck repair of corrupt objects, prune, pull in a clone with a reference store, fetch with the reference store on another filesystem, fetch through a standalone custom transfer agent with its scratch directory on the same / another filesystem}: a discovery run logs every reached verif crash point (temp-file creation, each copy burst, rename into place, link/copy from a reference store, move to bad/, unlink); one SIGKILL run per (point, scenario-wide ordinal); plus an strace sweep injecting SIGKILL at the N-th write/rename/link/unlink/openat of the git-lfs process; plus a write-discipline trace check (no open-for-write below lfs/objects) on uninterrupted runs. Oracle after each kill: every file under lfs/objects hashes to its name, leftovers only in lfs/tmp|incomplete|bad|cache|logs (and no entry of the Git directory that is not Git's own), re-running the command exits as the uninterrupted run and ends with the same object (and bad/) set as the golden run. Class = (scenario, kill kind, crash point)."
 	run.Assumptions = []string{"crash = SIGKILL of a git-lfs process (not power loss); instants between two hooked points are sampled at syscall granularity by the strace sweep only", "strace's when=N counts per thread, so the sweep is sampling: the syscall actually hit is whatever the N-th one of that class was"}
 	all := scenarios(run.Thorough())
 	var chosen []scenario
